@@ -63,6 +63,43 @@ PROPS = {
     },
 }
 
+H2_TB = LEAN_TB + [
+    "hand-written model TurnModel/Model/Server.lean (M4) tied to the real turn.Server by correspondence harness H2 "
+    "(harness/turn/h2_*_test.go: real server on an in-memory network under Go 1.26 testing/synctest virtual time, injected with "
+    "go test -overlay) and the compiled Lean driver replaying every operation; state listings compared after every operation",
+    "credentials are abstract facts (Cred) in M4; pion/stun message encoding and HMAC are exercised for real by the harness",
+    "atomicity: one request / relay event / timer batch per model step (UDP listener = one read loop; tables guarded by locks, C18)",
+]
+H2_RULE = ("H2 generates multi-client histories (1-3 active 5-tuples on a packet and optionally a stream listener, users alice/bob/unknown, "
+           "5 peers incl. shared IPs, vetoed peers and IPv6, all credential defects of C03, random timeout/lifetime/MTU configurations, "
+           "time steps on both sides of every expiry horizon, TCP-relay mode histories) against the real server; every operation and a "
+           "state listing after it are replayed through the Lean model; only the property's view (op kinds / output kinds) is compared; "
+           "distinct = distinct (op kind, outcome kinds) pairs observed in the view")
+H2_ASSUME = ["probes are never placed exactly at an expiry instant except via virtual-time sleeps that land on it (timer fires first)",
+             "simnet stands in for the OS socket layer; relay address generator and permission handler are harness-controlled inputs"]
+
+
+def h2prop(modules, view, outs, alarms, extra_assume=()):
+    return {"modules": modules, "harnesses": ["H2"], "view": view, "outs": outs, "alarms": alarms, "rule": H2_RULE,
+            "trusted_base": H2_TB, "assumptions": H2_ASSUME + list(extra_assume)}
+
+
+PROPS.update({
+    "C01": h2prop(["TurnModel.Props.C01"], ["m:send", "m:cdata", "m:perm", "m:bind", "m:connect", "state"],
+                  ["topeer", "dial"], []),
+    "C02": h2prop(["TurnModel.Props.C02"], ["pdata", "pconn", "state"], ["dind", "cdat", "catt", "cclosed"], []),
+    "C03": h2prop(["TurnModel.Props.C03"], ["m:alloc", "m:refresh", "m:perm", "m:bind", "m:connect", "m:cbind", "state"],
+                  ["resp"], [], ["byte-level nonce / MESSAGE-INTEGRITY semantics are M3 (C03 nonce theorems, C17)"]),
+    "C04": h2prop(["TurnModel.Props.C04"], ["m:*", "pdata", "pconn", "cclose", "state"], None, ["response-wrong-source"]),
+    "C05": h2prop(["TurnModel.Props.C05"], ["m:send", "m:cdata", "pdata"], ["topeer", "dind", "cdat"], ["chandata-padding"]),
+    "C06": h2prop(["TurnModel.Props.C06"], ["m:alloc", "m:refresh", "adv", "state", "m:send", "pdata"], ["resp", "topeer", "dind", "cdat"], []),
+    "C07": h2prop(["TurnModel.Props.C07"], ["m:perm", "m:bind", "adv", "m:send", "m:cdata", "pdata", "state"],
+                  ["resp", "topeer", "dind", "cdat"], []),
+    "C08": h2prop(["TurnModel.Props.C08"], ["m:bind", "m:cdata", "pdata", "state"], ["resp", "cdat", "topeer"],
+                  ["chandata-invalid-number-emitted"]),
+    "C19": h2prop(["TurnModel.Props.C19"], ["m:*"], ["resp"], ["response-wrong-source"]),
+})
+
 PROOF_NOTE = ("Trusted: Lean 4.33.0 kernel, axioms propext/Classical.choice/Quot.sound only (audited per theorem on every run), "
               "the hand-written model's tie to the code = correspondence harness + compiled driver (agreement observed on generated cases only). ")
 
@@ -88,6 +125,38 @@ MANIFEST_TEXT = {
         "note": PROOF_NOTE + "Partial: dependency/runtime panics are only exercised, not proved absent.",
     },
 }
+
+
+def _mt(text, ref, technique, extra=""):
+    return {"text": text, "design_ref": ref, "technique": technique, "note": PROOF_NOTE + extra}
+
+
+MANIFEST_TEXT.update({
+    "C01": _mt("send_gated / chandata_gated / only_these_emit and the policy+family invariant over every reachable state of the server model, "
+               "refused_never_receives, dial_granted; tied by replaying every H2 history through the model (relayed datagrams, dials and state listings compared).",
+               "DESIGN.md §6 C01", "Lean 4 invariants by induction over operation histories + differential correspondence under virtual time"),
+    "C02": _mt("udp_gated (forward iff live binding for the exact address, else live permission for the IP; state unchanged; owner only), tcp_gated, relay_owner_unique.",
+               "DESIGN.md §6 C02", "Lean 4 decision-logic theorems over reachable states + differential correspondence"),
+    "C03": _mt("auth_ok_iff and the 401/438/400 table, unauth_no_effect (state identical, no success) for all six methods, wrong_user_no_effect, connbind_owner_only; "
+               "credential defects generated with the real stun library and replayed through the model.",
+               "DESIGN.md §6 C03", "Lean 4 decision table + frame theorems + differential correspondence",
+               "Cryptography is a parameter: the abstract credential facts are what authenticateRequest establishes."),
+    "C04": _mt("unique_key / unique_relay (Nodup invariants over all reachable states), frame and others_cannot_touch (any history of other 5-tuples leaves an allocation identical), "
+               "replies_to_sender, connbind_frame, control_close_local.",
+               "DESIGN.md §6 C04", "Lean 4 list-level invariants + frame lemma by induction + differential correspondence"),
+    "C05": _mt("payload identity both ways for all lengths (composition of M4 gating with the ChannelData/XOR codecs of M1 and the framer of M2), oversize dropped, "
+               "inbound MTU rule, at-most-once, truthful attribution, padding shape.",
+               "DESIGN.md §6 C05", "Lean 4 composition of codec round-trip and relay theorems + differential correspondence with boundary payload sizes"),
+    "C06": _mt("granted_lifetime, reported_exact, allocate_success / refresh_success (expiry = now + granted; Refresh 0 deletes in the same step), alive_iff on every time advance, dead_is_silent.",
+               "DESIGN.md §6 C06", "Lean 4 theorems over symbolic time + differential correspondence under virtual time"),
+    "C07": _mt("entries_bounded invariant, create_permission_installs / channel_bind_installs (exact new expiries; ChannelBind refreshes the permission with the permission timeout), "
+               "change_monotone (nothing but time shortens an entry), expires_exactly, rebind_after_expiry.",
+               "DESIGN.md §6 C07", "Lean 4 invariants + exact-expiry theorems + differential correspondence around every horizon"),
+    "C08": _mt("chan_bijection invariant (numbers distinct, peers distinct, range) over all reachable states, conflict_400, conflict_iff, rejected_changes_nothing, rebind_no_conflict, emitted_numbers_valid.",
+               "DESIGN.md §6 C08", "Lean 4 invariant by induction + differential correspondence"),
+    "C19": _mt("resp_tid_dst on every path, binding_truthful, allocate_truthful (with relay uniqueness), retransmit_idempotent, mismatch_437.",
+               "DESIGN.md §6 C19", "Lean 4 theorems over all request paths + differential correspondence of every response"),
+})
 
 # properties whose check is not built yet (kept current; emptied as checks land)
 NOT_YET = {p: "check under construction in this build phase; no claim is made until its theorems and correspondence run exist"
